@@ -30,7 +30,8 @@ from .c03 import gen_cdda_model
 PROP = "C11"
 LEVEL = "exploration"
 RUNS = {"quick": 700, "thorough": 40000}
-TIME_CAP = {"quick": 400, "thorough": 3000}
+TIME_CAP = {"quick": 400, "thorough": 1500}
+CHUNK = 4          # runs per worker task (cost-aware: keeps the time cap responsive)
 RULE = ("one SimFile + one image object (AKAI, AKAI inside 2352-byte sectors, Roland, CDDA) with 2-6 clients (T transcoder iterators, "
         "R raw readers, D lazy directory listings, X foreign cursor moves) stepped by a seeded scheduler for up to 400 steps; also, for "
         "the first quarter of the batch, a bounded sweep over *all* interleavings of 2-3 clients x <=4 steps of a fixed tiny scenario "
